@@ -428,7 +428,7 @@ struct Engine : public vf::Engine {
                 else if (x < 89) o.kind = H_CLEAR_FAILS;
                 else if (x < 92 && !faultFree) { if (w.chance(1, 2)) { o.kind = H_OOM_COUNTDOWN; o.a = (int64_t)w.below(21); if (w.chance(1, 8)) { static const int neg[] = { -1, -2, -3, -10, -1000 }; o.a = neg[w.below(5)]; } } else o.kind = H_OOM_SET; }      // a negative count means: no countdown
                 else if (x < 93) o.kind = H_OOM_CLEAR;
-                else if (x < 94) o.kind = H_COUNT_RESET;
+                else if (x < 94) { if (w.chance(1, 2)) o.kind = H_COUNT_RESET; else { o.kind = H_MODE; o.a = 2; } }      // ... or the overloads change between their plain and their thread-safe form: the designations hold for both
                 else if (x < 97) { o.kind = H_STRDUP; o.a = (int64_t)w.below((uint64_t)nSlots); o.c = w.small(0, 40); o.b = w.chance(1, 2) ? -1 : w.small(0, 50); int s = (int)w.below(N_SITES); o.s = siteFile(s); o.d = (int64_t)siteLine(s); }
                 else { o.kind = H_CALLOC; o.a = (int64_t)w.below((uint64_t)nSlots); o.b = w.small(1, 8); o.c = w.small(1, 8); int s = (int)w.below(N_SITES); o.s = siteFile(s); o.d = (int64_t)siteLine(s);
                     if (w.chance(1, 6)) {      // a product that does not fit: the C library's calloc answers NULL, whatever the factors look like one by one
